@@ -56,6 +56,10 @@ func genURLCase(t *rapid.T, dir string) URLCase {
 		c.Order = c.Order[:rapid.IntRange(1, c.Medias).Draw(t, "nsetup")]
 	}
 	c.UDP = rapid.IntRange(0, 3).Draw(t, "udp") == 0
+	if c.Dir == "play" {
+		c.Back = rapid.SampledFrom([]string{"", "", "first", "middle", "last"}).Draw(t, "back_channel")
+		c.ReqBack = c.Back != "" && rapid.IntRange(0, 2).Draw(t, "req_back") == 0
+	}
 	return c
 }
 
